@@ -229,6 +229,14 @@ def make_program(rnd, n_pos, name="M0", module="simgen_m0", pyname=None, collide
             prog["cbs"][f"{role}.{nm}"] = {"group": g, "sig": gen_sig(rnd, n_pos, collide and rnd.random() < 0.5)}
     if not prog["cbs"]:
         prog["cbs"]["machine.on_transition"] = {"group": "on", "sig": gen_sig(rnd, n_pos)}
+    # callables other than plain methods: functions wrapped by one shared functools.wraps decorator,
+    # functools.partial objects stored on a listener
+    for c, m in prog["cbs"].items():
+        r = rnd.random()
+        if r < 0.25:
+            m["wrapped"] = True
+        elif r < 0.4 and c.startswith("L0."):
+            m["partial"] = True
     for m in prog["cbs"].values():
         if m["group"] == "enter":
             # the initial activation carries no arguments: every parameter needs another source
@@ -289,6 +297,8 @@ class C07(Campaign):
     quick_runs = 4000
     thorough_runs = 80000
     fault_kinds = ["reserved-kwarg (source=, event_data=, state= ... passed by the user)", "nested send forwarding kwargs",
+                   "callbacks wrapped by one shared functools.wraps decorator", "functools.partial callbacks",
+                   "instance dropped and collected before a look-alike is defined (address reuse)",
                    "queued events with different arguments", "look-alike class defined/used in between (signature cache)",
                    "more positional arguments than positional parameters"]
     rule = ("one run = a machine whose callbacks (all groups; machine/model/listener; plain, coroutine) have "
@@ -383,6 +393,15 @@ class C07(Campaign):
                 style = "call"  # sm.send(name, event=...) is not expressible in Python
             ops.append({"op": "send", "inst": "AB"[k], "event": rnd.choice(programs[k]["events"]),
                         "style": style, "args": a, "kwargs": kw})
+        if twin is not None and rnd.random() < 0.35:
+            # the first class is used, dropped (collected) and only then the look-alike is defined and
+            # used: whatever was cached for the dead callables must not be served to the new ones
+            a_ops = [o for o in ops if o.get("inst") == "A"]
+            b_ops = [o for o in ops if o.get("inst") == "B" or (o["op"] == "define")]
+            if not any(o["op"] == "define" for o in b_ops):
+                twin["deferred"] = True
+                b_ops.insert(0, {"op": "define", "prog": 1})
+            ops = a_ops + [{"op": "drop", "inst": "A"}] + b_ops
         gv = {}
         for p in programs:
             for c, m in p["cbs"].items():
